@@ -45,8 +45,11 @@ def block_mean_ok(interp, result, data, R, C):
             allnan = ops.conj([x.nan for x in four])
             cnt = z3.Sum([z3.If(x.nan if is_z3(x.nan) else z3.BoolVal(bool(x.nan)), 0, 1) for x in four])
             tot = z3.Sum([z3.If(x.nan if is_z3(x.nan) else z3.BoolVal(bool(x.nan)), z3.RealVal(0), x.val) for x in four])
-            out.append(ops.conj([simp(z3.BoolVal(True) if False else (res.nan == allnan if is_z3(res.nan) or is_z3(allnan) else z3.BoolVal(res.nan == allnan))),
-                                 ops.implies(ops.negate(allnan), simp(res.val * z3.ToReal(cnt) == tot))]))
+            clause = ops.conj([simp(z3.BoolVal(True) if False else (res.nan == allnan if is_z3(res.nan) or is_z3(allnan) else z3.BoolVal(res.nan == allnan))),
+                               ops.implies(ops.negate(allnan), ops.conj([ops.negate(res.inf), simp(res.val * z3.ToReal(cnt) == tot)]))])
+            # means over +-inf are not modelled (extended-real arithmetic): the clause speaks about blocks of finite / NaN values
+            noinf = ops.conj([ops.negate(x.inf) for x in four])
+            out.append(ops.implies(noinf, clause))
         else:
             s = z3.Sum([z3num(x) for x in four])
             # truncation toward zero of s/4
